@@ -100,11 +100,12 @@ func vlMethod(names []string, cmd pb.AffinityConfig_Command) *pb.MethodConfig {
 }
 
 func TestVerifLocksPool(t *testing.T) {
-	grpclog.SetLoggerV2(grpclog.NewLoggerV2(ioutil.Discard, ioutil.Discard, ioutil.Discard))
+	// verbosity 100: the FINE/FINEST log statements (which read shared fields) are executed, output discarded
+	grpclog.SetLoggerV2(grpclog.NewLoggerV2WithVerbosity(ioutil.Discard, ioutil.Discard, ioutil.Discard, 100))
 	ms := vlEnvInt("VERIF_MS", 4000)
 	seed := uint64(vlEnvInt("VERIF_SEED", 1))
 	workers := vlEnvInt("VERIF_WORKERS", 12)
-	rounds := 1 + ms/1500
+	rounds := 1 + ms/600
 	for r := 0; r < rounds; r++ {
 		vlPoolRound(t, seed+uint64(r)*7919, workers, time.Duration(ms/rounds)*time.Millisecond, r)
 	}
